@@ -640,6 +640,27 @@ def gen_multi_program(rng):
     return p
 
 
+def gen_multi_read_program(rng):
+    """one task READS the same resource twice with different checkers (C09 / C08).  The store keeps one dependency per target: for
+    reads the FIRST one (a second add_dependency on an existing edge changes nothing).  With the stricter checker first nothing
+    is lost; with the more lenient one first the record is incomplete (the read form of the recorded finding O7)."""
+    p = Prog()
+    p.kind = 'multi'
+    p.sources = [0]
+    c1, c2 = rng.choice([(0, 1), (0, 2), (1, 0), (2, 0), (0, 3), (3, 0), (1, 2), (2, 1), (1, 3), (0, 1), (0, 2)])
+    body = ('R', 0, c1, ('R', 0, c2, ('T', ('a',))))
+    if rng.random() < 0.5:
+        p.tasks[0] = ('Q', 1, 0, ('T', ('a',)))
+        p.tasks[1] = body
+    else:
+        p.tasks[0] = body
+    p.exact_only = False
+    vals = rng.choice([(1, 3), (1, 2), (2, 4), (0, 2), (1, 5)])
+    steps = [['E', '0', str(vals[0])], ['S', '1', 'q', '0'], ['E', '0', str(vals[1])], ['S', '1', 'q', '0'], ['S', '1', 'q', '0'],
+             ['E', '0', str(vals[0])], ['S', '1', 'b', '1', '0'], ['S', '1', 'q', '0']]
+    return p, steps
+
+
 def gen_newreq_program(rng):
     """Directed family for C16/C04: in a bottom-up build an executing task NEWLY requires an existing task B that is not yet
     consistent while several of B's (transitive) dependencies are still scheduled -- the only place where the build picks
